@@ -721,6 +721,18 @@ func (s *Server) handlePAP(session *Session, data []byte) {
 	// Zero password now that authentication is complete
 	zeroBytes(passwordBytes)
 
+	// The RADIUS exchange can take longer than the idle timeout, and the idle
+	// sweep runs on its own goroutine: if it has removed the session in the
+	// meantime there is nobody left to answer, and an address allocated now
+	// would belong to a session no termination path can find any more.
+	if s.sessions.GetSession(session.ID) != session {
+		s.logger.Warn("PAP authentication finished for a session that no longer exists",
+			zap.Uint16("session_id", session.ID),
+			zap.String("username", username),
+		)
+		return
+	}
+
 	session.Username = username
 	session.Authenticated = authenticated
 	session.AuthMethod = "PAP"
